@@ -21,6 +21,8 @@ def run(chk, tier):
         O.conversion_flavour(chk, F, 'R17.5', cfg)
         from props import builder as B
         B.conversion_table(chk, F, 'R17.6', cfg)
+        # R17.7 the converted value is what gets stored as the response
+        B.returner_error_latched(chk, F, 'R17.7', cfg)
         # R17.3 slot separation by distinct type parameters
         n = 0
         for im in F.impls:
